@@ -19,3 +19,9 @@
 (define-fun cut ((amount Int) (ratio Int)) Int (dec_trunc (dec_mul (* amount P18) ratio)))
 ; prices are never negative for non-negative sizes and durations (PricePerTbPerMonth >= 0, oracle price > 0)
 (define-fun storage_cost_nonneg ((p T_storage_Params)) Bool (forall ((g Int) (h Int)) (! (=> (and (>= g 0) (>= h 0)) (>= (storage_cost p g h) 0)) :pattern ((storage_cost p g h)))))
+; C12 invariant: a gauge account never holds more than its record says was deposited; accounts of gauges that have no
+; record hold nothing (a gauge account is only ever funded together with the creation of its record)
+(define-fun gauges_backed ((bank (Array Str (Array Str Int))) (g (Array Str (Option T_storage_PaymentGauge)))) Bool
+  (forall ((i Str) (d Str)) (! (and (>= (select (select bank (gaugeAddr i)) d) 0)
+       (<= (select (select bank (gaugeAddr i)) d) (ite ((_ is some_T_storage_PaymentGauge) (select g i)) (Coins_amt (T_storage_PaymentGauge_Coins (val_T_storage_PaymentGauge (select g i))) d) 0)))
+     :pattern ((select (select bank (gaugeAddr i)) d)))))
